@@ -40,6 +40,9 @@ DESIGNED = [
     # nested block lists in very small units (2^-70, atol in the same units)
     {"hermitian": True, "sizes": [2, 2], "E": [1, 4, 8, 11],
      "variant": {"carrier": "dense", "designation": "blocked", "container": "dict", "int_h0": False, "scale_exp": -70}},
+    # a series of blocks of the caller's whose carriers differ between the orders: arrays up to first order, legacy sparse matrices from second order on
+    {"hermitian": True, "sizes": [2, 2], "E": [1, 3, 7, 10],
+     "variant": {"carrier": "legacy-high-orders", "designation": "blockseries-blocked", "container": "dict", "int_h0": False, "scale_exp": 0}},
     {"hermitian": True, "sizes": [2, 2], "E": [0, 0, 2, 5], "fd_tuple": [0]},                        # an identically zero H_0 block, fully diagonalised
     {"hermitian": False, "sizes": [2, 1, 2], "E": [0, 0, 3, 7, 7], "fd_tuple": [0, 2]},              # a zero block and a degenerate one, both fully diagonalised
     {"hermitian": True, "sizes": [2, 2], "E": [1, 3, 0, 0], "variant": {"carrier": "dense", "designation": "indices", "container": "dict", "int_h0": False, "scale_exp": 0}},                                         # an identically zero H_0 block that is not the first one, equal block sizes
@@ -327,7 +330,7 @@ def run_impl_numeric(P, requests, v, rnd):
         mats = {n: m[np.ix_(perm, perm)] for n, m in mats.items()}
     def conv(a):
         c = v["carrier"] if v["carrier"] != "mixed" else rnd.choice(["dense", "sparse", "spmatrix"])
-        if c in ("dense", "by-order"): return a
+        if c in ("dense", "by-order", "legacy-high-orders"): return a
         if v.get("explicit_zeros") and a.ndim == 2 and a.size:
             # CSR with every entry stored, zeros included (what arithmetic on sparse matrices leaves behind): the caller's buffers must survive as they are
             rr, cc = np.indices(a.shape); args = ((a.ravel().copy(), (rr.ravel(), cc.ravel())),); kws = dict(shape=a.shape)
@@ -342,7 +345,9 @@ def run_impl_numeric(P, requests, v, rnd):
             for i in range(N):
                 for j in range(N):
                     blk = m[off[i]:off[i + 1], off[j]:off[j + 1]]
-                    if np.any(blk != 0) or (i == j and not any(n)): data[(i, j) + tuple(n)] = conv(blk)
+                    if np.any(blk != 0) or (i == j and not any(n)):
+                        # (carriers that differ between the orders of a series of blocks: arrays up to first order, legacy sparse matrices above)
+                        data[(i, j) + tuple(n)] = (sparse.csr_matrix(blk) if sum(n) >= 2 else blk) if v["carrier"] == "legacy-high-orders" else conv(blk)
         H = BlockSeries(data=data, shape=(N, N), n_infinite=k)
         if os.environ.get("BD_DEBUG"):
             import pickle; pickle.dump({"data": data, "fd": P["fd_py"], "hermitian": P["hermitian"], "N": N, "k": k}, open(os.environ["BD_DEBUG"], "wb"))
